@@ -423,3 +423,315 @@ Proof.
   destruct rel as [|c rel]; [|exact Hpl].
   unfold can_create in Ecc. rewrite app_nil_r, list_beq_refl in Ecc. discriminate.
 Qed.
+
+(* ================================================================ restore: success *)
+
+Lemma move_file_ok : forall d lg tmp file f d' lg' f',
+  move_file d lg tmp file f = (d', lg', true, f') ->
+  (lookup file tmp = None /\ d' = d /\ lg' = lg) \/
+  (exists old t, lookup file tmp = Some t /\ lookup file d = Some old /\
+     d' = set file t (set (bk file) old (remove file d)) /\ lg' = add_created (add_moved lg (bk file)) file) \/
+  (exists t, lookup file tmp = Some t /\ lookup file d = None /\ d' = set file t d /\ lg' = add_created lg file).
+Proof.
+  intros d lg tmp file f d' lg' f' H. unfold move_file in H.
+  destruct (tick f) as [f1|]; [|inversion H].
+  destruct (lookup file tmp) as [t|]; [|inversion H; subst; auto].
+  destruct (tick f1) as [f2|]; [|inversion H].
+  destruct (lookup file d) as [old|] eqn:El.
+  - destruct (tick f2) as [f3|]; [|inversion H].
+    destruct (tick f3) as [f4|]; inversion H; subst.
+    right; left. exists old, t. auto.
+  - destruct (tick f2) as [f3|]; inversion H; subst.
+    right; right. exists t. auto.
+Qed.
+
+(* what the parent directory holds after both moves succeeded, and after Cleanup *)
+Definition moves_spec (d0 tmp : dir) (revdir : name) (cleaned : bool) (n : name) : option tree :=
+  if n =? 0 then match lookup 0 tmp with Some t => Some t | None => lookup 0 d0 end
+  else if n =? revdir then match lookup revdir tmp with Some t => Some t | None => lookup revdir d0 end
+  else if n =? 1 then (if cleaned then None else match lookup 0 tmp with Some _ => lookup 0 d0 | None => None end)
+  else if n =? revdir + 1 then (if cleaned then None else match lookup revdir tmp with Some _ => lookup revdir d0 | None => None end)
+  else lookup n d0.
+
+Lemma moves_success : forall d tmp revdir f lp d6 lg6 f6 d7 lg7 f7,
+  revdir <> 0 -> (exists h, revdir = 2 * h) ->
+  lookup 1 d = None -> lookup (revdir + 1) d = None ->
+  move_file d {| l_parent := lp; l_created := []; l_moved := [] |} tmp common f = (d6, lg6, true, f6) ->
+  move_file d6 lg6 tmp revdir f6 = (d7, lg7, true, f7) ->
+  (forall n, lookup n d7 = moves_spec d tmp revdir false n) /\
+  (forall n, lookup n (fold_left (fun d n => remove n d) (l_moved lg7) d7) = moves_spec d tmp revdir true n).
+Proof.
+  intros d tmp revdir f lp d6 lg6 f6 d7 lg7 f7 Hr0 [h Hh] Hf1 Hf2 H6 H7.
+  unfold common, bk in *.
+  apply move_file_ok in H6. apply move_file_ok in H7. unfold common, bk in *.
+  destruct H6 as [(Ht & -> & ->) | [(old & t & Ht & Hl & -> & ->) | (t & Ht & Hl & -> & ->)]];
+  destruct H7 as [(Ht2 & -> & ->) | [(old2 & t2 & Ht2 & Hl2 & -> & ->) | (t2 & Ht2 & Hl2 & -> & ->)]];
+    (split; intro n; unfold moves_spec; cbn [l_created l_moved add_created add_moved app fold_left];
+     try (revert Hl2; look; intro Hl2);
+     repeat (look; try rewrite Ht; try rewrite Ht2; try rewrite Hl; try rewrite Hl2; try rewrite Hf1; try rewrite Hf2; cbv iota beta);
+     rewrite ?(N.eqb_sym n);
+     split_k n; try reflexivity; try congruence; try lia;
+     repeat (look; try rewrite Ht; try rewrite Ht2; try rewrite Hl; try rewrite Hl2; try rewrite Hf1; try rewrite Hf2; cbv iota beta);
+     try reflexivity; try congruence;
+     try replace (0 + 1) with 1 by lia; try congruence).
+Qed.
+
+Lemma odd_fresh : forall d n, (forall k, lookup (k * 2 + 1) d = None) -> N.even n = false -> lookup n d = None.
+Proof.
+  intros d n Hf He. assert (Ho : N.odd n = true) by (rewrite <- N.negb_even, He; reflexivity).
+  apply N.odd_spec in Ho. destruct Ho as [m ->]. replace (2 * m + 1) with (m * 2 + 1) by lia. apply Hf.
+Qed.
+
+Lemma even_2h : forall h, N.even (2 * h) = true.
+Proof. intro h. rewrite N.even_mul. reflexivity. Qed.
+Lemma even_2h1 : forall h, N.even (2 * h + 1) = false.
+Proof. intro h. rewrite N.add_comm, N.even_add_mul_2. reflexivity. Qed.
+
+(* moves_spec is the expected content, once the temporary directory is related to what tar extracted *)
+Lemma spec_matches : forall cur e d tmp5 revdir cl,
+  (forall k, lookup (k * 2 + 1) d = None) ->
+  revdir <> 0 -> (exists h, revdir = 2 * h) ->
+  revdir = match cur with Some c => c | None => e_rev e end ->
+  lookup 0 tmp5 = lookup 0 (e_extracted e) ->
+  lookup revdir tmp5 = lookup (e_rev e) (e_extracted e) ->
+  forall n, moves_spec d tmp5 revdir cl n = expected_lookup cur (if cl then ACleanup else ANone) (Some d) e n.
+Proof.
+  intros cur e d tmp5 revdir cl Hf Hr0 [h Hh] Hrd H0 Hr n.
+  unfold moves_spec, expected_lookup, expected_after, expected_backup, init_lookup, common, bk. cbv zeta.
+  rewrite H0, Hr. clear H0 Hr.
+  assert (Hg : forall rv, rv = revdir ->
+    (if n =? 0 then match lookup 0 (e_extracted e) with Some t => Some t | None => lookup 0 d end
+     else if n =? revdir then match lookup (e_rev e) (e_extracted e) with Some t => Some t | None => lookup revdir d end
+     else if n =? 1 then (if cl then None else match lookup 0 (e_extracted e) with Some _ => lookup 0 d | None => None end)
+     else if n =? revdir + 1 then (if cl then None else match lookup (e_rev e) (e_extracted e) with Some _ => lookup revdir d | None => None end)
+     else lookup n d) =
+    (if N.even n
+     then if n =? 0 then match lookup 0 (e_extracted e) with Some t => Some t | None => lookup n d end
+          else if n =? rv then match lookup (e_rev e) (e_extracted e) with Some t => Some t | None => lookup n d end
+          else lookup n d
+     else match (if cl then ACleanup else ANone) with
+          | ACleanup => None
+          | _ => if n =? 0 + 1 then match lookup 0 (e_extracted e) with Some _ => lookup 0 d | None => None end
+                 else if n =? rv + 1 then match lookup (e_rev e) (e_extracted e) with Some _ => lookup rv d | None => None end
+                 else None
+          end));
+  [| destruct cur as [c|]; cbv beta iota in Hrd |- *; exact (Hg _ (eq_sym Hrd))].
+  intros rv ->. clear Hrd.
+  destruct (n =? 0) eqn:E0.
+  { apply N.eqb_eq in E0. subst n. cbn [N.even]. reflexivity. }
+  destruct (n =? revdir) eqn:E1.
+  { apply N.eqb_eq in E1. subst n. replace (N.even revdir) with true by (rewrite Hh; symmetry; apply even_2h). reflexivity. }
+  replace (0 + 1) with 1 by lia.
+  destruct (n =? 1) eqn:E2.
+  { apply N.eqb_eq in E2. subst n. cbn [N.even]. destruct cl; reflexivity. }
+  destruct (n =? revdir + 1) eqn:E3.
+  { apply N.eqb_eq in E3. subst n. replace (N.even (revdir + 1)) with false by (rewrite Hh; symmetry; apply even_2h1). destruct cl; reflexivity. }
+  destruct (N.even n) eqn:Ev; [reflexivity|].
+  rewrite (odd_fresh d n Hf Ev). destruct cl; reflexivity.
+Qed.
+
+Lemma restore_in_success : forall cur d lp e f2 st' lg f',
+  match cur with Some c => wf_name c | None => true end = true ->
+  (forall k, lookup (k * 2 + 1) d = None) -> wf_name (e_rev e) = true ->
+  restore_in cur d {| l_parent := lp; l_created := []; l_moved := [] |} e f2 = (st', lg, true, f') ->
+  exists d', st' = Some d' /\
+    (forall n, lookup n d' = expected_lookup cur ANone (Some d) e n) /\
+    (forall n, lookup n (fold_left (fun d n => remove n d) (l_moved lg) d') = expected_lookup cur ACleanup (Some d) e n).
+Proof.
+  intros cur d lp e f2 st' lg f' Hc Hfresh Hrev H'.
+  unfold restore_in in H'.
+  destruct (tick f2) as [f3|]; [|inversion H'].
+  destruct (tick f3) as [f4|]; [|inversion H'].
+  destruct (negb (e_extract_ok e)); [inversion H'|].
+  destruct (negb (e_digest_ok e)); [inversion H'|].
+  cbv zeta in H'.
+  match type of H' with match ?r5 with _ => _ end = _ => destruct r5 as [[[tmp5 revdir] f5]|] eqn:E5 end; [|inversion H'].
+  (* facts about the temporary directory after the optional rename *)
+  apply wf_name_spec in Hrev. destruct Hrev as [Hv0 [hv Hhv]].
+  assert (Hfacts : wf_name revdir = true /\ revdir = match cur with Some c => c | None => e_rev e end /\
+                   lookup 0 tmp5 = lookup 0 (e_extracted e) /\ lookup revdir tmp5 = lookup (e_rev e) (e_extracted e)).
+  { assert (Hwr : wf_name (e_rev e) = true).
+    { unfold wf_name, even_name, common. rewrite Hhv, even_2h. cbn [andb]. apply negb_true_iff. apply N.eqb_neq. lia. }
+    destruct cur as [c|].
+    - destruct (c =? e_rev e) eqn:Ec.
+      + apply N.eqb_eq in Ec. inversion E5; subst. auto.
+      + destruct (tick f4); [|discriminate].
+        destruct (lookup (e_rev e) (e_extracted e)) as [t|] eqn:L1; [|discriminate].
+        destruct (lookup c (e_extracted e)) eqn:L2; [discriminate|].
+        inversion E5; subst. apply N.eqb_neq in Ec.
+        pose proof (wf_name_spec _ Hc) as [Hc0 _].
+        repeat split; auto.
+        * rewrite lookup_set, lookup_remove.
+          replace (revdir =? 0) with false by (symmetry; apply N.eqb_neq; lia).
+          replace (e_rev e =? 0) with false by (symmetry; apply N.eqb_neq; lia). reflexivity.
+        * rewrite lookup_set, N.eqb_refl. reflexivity.
+    - inversion E5; subst. auto. }
+  destruct Hfacts as (Hwr & Hrd & H0 & Hr).
+  apply wf_name_spec in Hwr. destruct Hwr as [Hr0 [h Hh]].
+  destruct (move_file d {| l_parent := lp; l_created := []; l_moved := [] |} tmp5 common f5) as [[[d6 lg6] ok6] f6] eqn:E6.
+  destruct ok6; cbn [negb] in H'; [|inversion H'].
+  destruct (move_file d6 lg6 tmp5 revdir f6) as [[[d7 lg7] ok7] f7] eqn:E7.
+  inversion H'; subst st' lg ok7 f'.
+  assert (F1 : lookup 1 d = None) by (apply (Hfresh 0)).
+  assert (F2 : lookup (revdir + 1) d = None) by (rewrite Hh; replace (2 * h + 1) with (h * 2 + 1) by lia; apply Hfresh).
+  destruct (moves_success d tmp5 revdir f5 lp d6 lg6 f6 d7 lg7 f7 Hr0 (ex_intro _ h Hh) F1 F2 E6 E7) as [S1 S2].
+  exists d7. split; [reflexivity|]. split; intro n.
+  - rewrite S1. apply (spec_matches cur e d tmp5 revdir false Hfresh Hr0 (ex_intro _ h Hh) Hrd H0 Hr).
+  - rewrite S2. apply (spec_matches cur e d tmp5 revdir true Hfresh Hr0 (ex_intro _ h Hh) Hrd H0 Hr).
+Qed.
+
+Lemma expected_lookup_missing : forall cur a e n, expected_lookup cur a (Some []) e n = expected_lookup cur a None e n.
+Proof. reflexivity. Qed.
+
+(* one entry, success: the parent directory holds exactly the expected content; after Cleanup no backup is left *)
+Lemma restore_one_success : forall cur st e f st' lg f',
+  match cur with Some c => wf_name c | None => true end = true ->
+  wf_pstate st = true -> wf_name (e_rev e) = true ->
+  restore_one cur st e f = (st', lg, true, f') ->
+  (exists d', st' = Some d' /\ forall n, lookup n d' = expected_lookup cur ANone st e n) /\
+  (exists d', cleanup_one (st', lg) = Some d' /\ forall n, lookup n d' = expected_lookup cur ACleanup st e n).
+Proof.
+  intros cur st e f st' lg f' Hc Hst Hrev H. unfold restore_one in H.
+  destruct (tick f) as [f1|]; [|inversion H].
+  destruct st as [d|].
+  - destruct (restore_in_success cur d false e f1 st' lg f' Hc (fun n => wf_dir_fresh d n Hst) Hrev H) as (d' & -> & S1 & S2).
+    split; [exists d'; auto | eexists; split; [reflexivity | exact S2]].
+  - destruct (tick f1) as [f2|]; [|inversion H].
+    destruct (restore_in_success cur [] true e f2 st' lg f' Hc (fun n => eq_refl) Hrev H) as (d' & -> & S1 & S2).
+    split; [exists d'; split; [reflexivity|]; intro n; rewrite S1; apply expected_lookup_missing
+           | eexists; split; [reflexivity|]; intro n; rewrite S2; apply expected_lookup_missing].
+Qed.
+
+Inductive all_expected (cur : option name) (a : after) : list (pstate * rentry) -> list pstate -> Prop :=
+| ae_nil : all_expected cur a [] []
+| ae_cons : forall init e d' es fin,
+    (forall n, lookup n d' = expected_lookup cur a init e n) ->
+    all_expected cur a es fin -> all_expected cur a ((init, e) :: es) (Some d' :: fin).
+
+Lemma restore_all_success : forall cur es f res,
+  wf_case cur es = true -> restore_all cur es f = (res, true) ->
+  all_expected cur ANone es (map fst res) /\ all_expected cur ACleanup es (map cleanup_one res).
+Proof.
+  intros cur es. induction es as [|[st e] r IH]; intros f res Hwf H; cbn [restore_all] in H.
+  - inversion H; subst. split; constructor.
+  - apply wf_case_cons in Hwf. destruct Hwf as (Hc & Hst & Hrev & Hr).
+    destruct (restore_one cur st e f) as [[[st' lg] ok] f'] eqn:E1.
+    destruct ok; [|inversion H].
+    destruct (restore_all cur r f') as [rest ok'] eqn:E2. inversion H; subst res ok'.
+    destruct (IH f' rest Hr E2) as [I1 I2].
+    destruct (restore_one_success _ _ _ _ _ _ _ Hc Hst Hrev E1) as [(d1 & -> & S1) (d2 & Hcl & S2)].
+    split; cbn [map fst].
+    + constructor; assumption.
+    + rewrite Hcl. constructor; assumption.
+Qed.
+
+(* Reader.Restore succeeded (optionally followed by Cleanup): every data directory holds exactly the extracted `common`
+   and revision trees, everything else as before, the old trees under the backup names -- and no backup after Cleanup *)
+Theorem restore_success : forall cur es f a,
+  wf_case cur es = true -> a <> ARevert ->
+  fst (restore cur es f a) = true ->
+  all_expected cur a es (snd (restore cur es f a)).
+Proof.
+  intros cur es f a Hwf Ha H. unfold restore in *.
+  destruct (restore_all cur es f) as [res ok] eqn:E. destruct ok; [|discriminate].
+  destruct (restore_all_success cur es f res Hwf E) as [S1 S2].
+  destruct a; cbn [snd]; [exact S1 | exact S2 | contradiction].
+Qed.
+
+(* ... which is what the executable predicate used as the monitor says *)
+Lemma opt_tree_eqb_refl : forall o, opt_tree_eqb o o = true.
+Proof. intros [t|]; cbn; [apply N.eqb_refl | reflexivity]. Qed.
+
+Theorem restore_success_monitor : forall cur es f a,
+  wf_case cur es = true -> a <> ARevert ->
+  fst (restore cur es f a) = true ->
+  success_all cur a es (snd (restore cur es f a)) = true.
+Proof.
+  intros cur es f a Hwf Ha H. pose proof (restore_success cur es f a Hwf Ha H) as S.
+  clear H Hwf. induction S as [|init e d' es0 fin Hl S IH].
+  - reflexivity.
+  - cbn [success_all success_ok]. rewrite IH, andb_true_r.
+    apply forallb_forall. intros n _. rewrite Hl. apply opt_tree_eqb_refl.
+Qed.
+
+(* ================================================================ import: contents, duplicates *)
+
+(* the loop with contents writes to the same paths, with the same verdict, as the loop without *)
+Lemma import_writes_paths : forall sdir idb dirs ms fs ef,
+  map fst (fst (import_writes sdir idb dirs fs ms ef)) = fst (import_run sdir idb dirs ms ef) /\
+  snd (import_writes sdir idb dirs fs ms ef) = snd (import_run sdir idb dirs ms ef).
+Proof.
+  intros sdir idb dirs ms. induction ms as [|m r IH]; intros fs ef; cbn [import_writes import_run]; [split; reflexivity|].
+  destruct (m_kind m); try (split; reflexivity).
+  destruct (contains s_dotdotslash (m_name m)); [split; reflexivity|].
+  destruct (beq (m_name m) s_content_json); [apply IH|].
+  destruct (beq (m_name m) s_export_json); [apply IH|].
+  destruct (cut_first c_under (m_name m)) as [[a rest]|]; [|split; reflexivity].
+  destruct (can_create sdir dirs (import_target sdir idb rest)); [|split; reflexivity].
+  cbv zeta.
+  match goal with |- context [import_writes sdir idb dirs ?fs' r ef] => destruct (IH fs' ef) as [I1 I2];
+    destruct (import_writes sdir idb dirs fs' r ef) as [w ok] end.
+  destruct (import_run sdir idb dirs r ef) as [w2 ok2]. cbn [fst snd map] in *. split; congruence.
+Qed.
+
+Theorem import_writes_inside : forall sdir idb dirs fs ms ef,
+  forallb (fun b => negb (b =? c_slash)) idb = true ->
+  forallb (strictly_below sdir) (map fst (fst (import_writes sdir idb dirs fs ms ef))) = true.
+Proof.
+  intros sdir idb dirs fs ms ef Hid. destruct (import_writes_paths sdir idb dirs ms fs ef) as [-> _].
+  now apply import_inside.
+Qed.
+
+(* what a write over an existing file leaves: the new body, then the part of the old content beyond its length *)
+Lemma overlay_replaces : forall old data, (length old <= length data)%nat -> overlay old data = data.
+Proof. intros old data H. unfold overlay. rewrite skipn_all2 by exact H. apply app_nil_r. Qed.
+
+Lemma overlay_shape : forall old data,
+  firstn (length data) (overlay old data) = data /\
+  skipn (length data) (overlay old data) = skipn (length data) old /\
+  length (overlay old data) = Nat.max (length old) (length data).
+Proof.
+  intros old data. unfold overlay. repeat split.
+  - rewrite firstn_app, Nat.sub_diag, firstn_O, app_nil_r. apply firstn_all.
+  - rewrite skipn_app, Nat.sub_diag. cbn [skipn]. rewrite skipn_all. reflexivity.
+  - rewrite app_length, skipn_length. lia.
+Qed.
+
+(* duplicates: every write stores overlay (content of that path after the earlier writes) (body of this member); in
+   particular a later member with the same target overwrites the earlier one -- completely when it is at least as long *)
+Inductive writes_from (fs : list (list bytes * bytes)) : list (list bytes * bytes) -> Prop :=
+| wf_nil : writes_from fs []
+| wf_cons : forall p body w,
+    writes_from ((p, overlay (match path_lookup p fs with Some c => c | None => [] end) body) :: fs) w ->
+    writes_from fs ((p, overlay (match path_lookup p fs with Some c => c | None => [] end) body) :: w).
+
+Theorem import_writes_overlay : forall sdir idb dirs ms fs ef,
+  writes_from fs (fst (import_writes sdir idb dirs fs ms ef)).
+Proof.
+  intros sdir idb dirs ms. induction ms as [|m r IH]; intros fs ef; cbn [import_writes]; [constructor|].
+  destruct (m_kind m); try constructor.
+  destruct (contains s_dotdotslash (m_name m)); [constructor|].
+  destruct (beq (m_name m) s_content_json); [apply IH|].
+  destruct (beq (m_name m) s_export_json); [apply IH|].
+  destruct (cut_first c_under (m_name m)) as [[a rest]|]; [|constructor].
+  destruct (can_create sdir dirs (import_target sdir idb rest)); [|constructor].
+  cbv zeta.
+  match goal with |- context [import_writes sdir idb dirs ?fs' r ef] => pose proof (IH fs' ef) as I;
+    destruct (import_writes sdir idb dirs fs' r ef) as [w ok] end.
+  cbn [fst] in *. constructor. exact I.
+Qed.
+
+(* ================================================================ Reader.Check *)
+
+Theorem check_iff : forall users zs,
+  check users zs = true <->
+  forall z, In z zs -> selected users z = true ->
+    z_present z = true /\ z_read_ok z = true /\ z_read z = z_reported z /\ z_actual z = z_recorded z.
+Proof.
+  intros users zs. unfold check. rewrite forallb_forall. split.
+  - intros H z Hin Hsel. specialize (H z Hin). rewrite Hsel in H. cbn [negb orb] in H. unfold check_one in H.
+    repeat (apply andb_true_iff in H; destruct H as [H ?]).
+    repeat split; auto; now apply N.eqb_eq.
+  - intros H z Hin. destruct (selected users z) eqn:Hsel; [|reflexivity]. cbn [negb orb].
+    destruct (H z Hin Hsel) as (H1 & H2 & H3 & H4). unfold check_one. rewrite H1, H2, H3, H4, !N.eqb_refl. reflexivity.
+Qed.
